@@ -229,6 +229,7 @@ fn eval_inner(op: &Op, pre: Option<(&Shared, &[(String, Ctx)])>, chans: Option<&
                 }
             }
             // everything kept alive must still print and evaluate as what it was made from
+            let mut expect: Vec<(String, String)> = Vec::new();
             for (e, oh) in &kept {
                 let shown = match oh {
                     AnyOh::N(x) => x.to_string(),
@@ -239,6 +240,25 @@ fn eval_inner(op: &Op, pre: Option<(&Shared, &[(String, Ctx)])>, chans: Option<&
                 }
                 f.str(&shown);
                 f.str(&oh.next_change(*t));
+                expect.push((e.clone(), shown));
+            }
+            // all of them are released in one burst (no lock of the library is needed for that, so the burst
+            // can land in the middle of another thread's sweep / eviction) ...
+            drop(kept);
+            // ... and then made again from the same strings: they must print the same (an interner or cache
+            // whose index went stale hands out another entry here)
+            if *kind != 2 {
+                for (e, shown) in &expect {
+                    if let Ok(again) = build(e, &Ctx::Default) {
+                        let shown2 = match &again {
+                            AnyOh::N(x) => x.to_string(),
+                            AnyOh::Z(x, _) => x.to_string(),
+                        };
+                        if shown2 != *shown {
+                            return format!("CHURN-MIXUP {e:?} printed as {shown:?}, made again it prints as {shown2:?}");
+                        }
+                    }
+                }
             }
             format!("churn {:016x}", f.0)
         }
